@@ -65,7 +65,7 @@ reg(
 
 reg(
     "C14",
-    RULE="strings given to parse_url: every string up to a length bound over the 20-symbol delimiter-heavy alphabet behind the prefixes '', '//', 'http://', 'HTTPS://x'; grammar-generated URLs with hostile components and one-character splices; random unicode incl. lone surrogates; 49 pathological repetition families (incl. authorities that fail to match after a long run) timed at n=10^3..10^5; a case is the input string (or timing family); non-trivial = non-empty body; distinct = distinct strings",
+    RULE="strings given to parse_url: every string up to a length bound over the 20-symbol delimiter-heavy alphabet behind the prefixes '', '//', 'http://', 'HTTPS://x'; grammar-generated URLs with hostile components and one-character splices; random unicode incl. lone surrogates; 49 pathological repetition families (incl. authorities that fail to match after a long run) timed at n=10^3..10^5; a case is the input string (or timing family); non-trivial = non-empty body; distinct = distinct strings; call histories: one host spelling parsed under ftp/http/socks5h/HTTPS/'//'/ws/none in every rotation (same string must give the same result as the first time)",
     ASSUMPTIONS=COMMON_ASSUMPTIONS + [
         "the independent authority split is applied only to inputs that have an RFC 3986 authority ('scheme://' or '//' prefix); scheme-less inputs such as 'host:80' follow urllib3's documented best-effort reading and are judged for totality and normal form only",
         "host agreement is modulo case, IDNA (idna package) and zone '%25'->'%'; userinfo agreement is after percent-decoding; '' and None hosts are identified for the reference comparison (idempotence is judged separately)",
@@ -77,12 +77,12 @@ reg(
     LEVEL_TEXT="Runtime monitoring of parse_url on an exhaustive short-string space plus grammar/random/pathological inputs; each result is judged by a totality monitor, a normal-form predicate, an idempotence monitor, an independent RFC 3986 authority split, and a CPU-time scaling monitor.",
     LEVEL_NOTE="Trusts the 50-line reference authority splitter and the idna package; strings longer than the exhaustive bound are sampled; timing is measured on this machine with a generous envelope.",
     TECHNIQUE="differential runtime monitoring against an independent RFC 3986 authority reader + invariant (normal form, idempotence) and scaling monitors; exhaustive short-string enumeration",
-    REQUIRED_MONITORS={"quick": {"totality": 100000, "normal_form": 20000, "idempotence": 20000, "reference_split": 20000, "scaling": 40}, "thorough": {"totality": 10**6, "reference_split": 10**5, "scaling": 40}},
+    REQUIRED_MONITORS={"quick": {"totality": 100000, "normal_form": 20000, "idempotence": 20000, "reference_split": 20000, "scaling": 40, "history_purity": 1000}, "thorough": {"totality": 10**6, "reference_split": 10**5, "scaling": 40, "history_purity": 1000}},
 )
 
 reg(
     "C20",
-    RULE="field lists given to encode_multipart_formdata / request_encode_body: every name/filename up to a length bound over the hostile alphabet {\" ' \\ ; CR LF CRLF = é 😀 SP -- a} in four input forms and inside a 3-field sandwich; random lists of 1-4 fields (plain, (filename,data), (filename,data,mime), RequestField with extra headers) in dict/list containers with explicit or random boundaries and hostile values (CRLF, dash runs, a look-alike delimiter of another boundary, arbitrary bytes); a case is the field list + container + boundary + entry point; non-trivial = name other than ''/'a'",
+    RULE="field lists given to encode_multipart_formdata / request_encode_body: every name/filename up to a length bound over the hostile alphabet {\" ' \\ ; CR LF CRLF = é 😀 SP -- a} in four input forms and inside a 3-field sandwich; random lists of 1-4 fields (plain, (filename,data), (filename,data,mime), RequestField with extra headers) in dict/list containers with explicit or random boundaries and hostile values (CRLF, dash runs, a look-alike delimiter of another boundary, arbitrary bytes); a case is the field list + container + boundary + entry point; non-trivial = name other than ''/'a'; 1-3 multipart requests through one RequestMethods object whose default or per-call headers are None / dict / HTTPHeaderDict, random and fixed boundaries",
     ASSUMPTIONS=COMMON_ASSUMPTIONS + [
         "premise of the statement: cases whose data contains the chosen boundary delimiter are skipped (counted)",
         "expected parameter values use forward WHATWG escaping (CR, LF, double quote percent-encoded, UTF-8); un-escaping is not attempted because it is not injective",
@@ -93,12 +93,12 @@ reg(
     LEVEL_TEXT="Runtime monitoring of the encoder: every produced body is parsed back by a strict independent multipart parser and compared part by part (count, order, exact header lines, disposition parameters, byte-identical data, boundary named = boundary used), for an exhaustive hostile-name space and random field lists, through three entry points including the in-memory wire.",
     LEVEL_NOTE="Trusts the strict multipart parser in vf/wire.py (about 60 lines) and Python's mimetypes for the default part type.",
     TECHNIQUE="round-trip runtime monitoring with an independent strict parser (structural oracle) + forward-escaping reference",
-    REQUIRED_MONITORS={"quick": {"parse_back": 5000, "part_compare": 8000, "wire_roundtrip": 3}, "thorough": {"parse_back": 10**5, "part_compare": 10**5, "wire_roundtrip": 20}},
+    REQUIRED_MONITORS={"quick": {"parse_back": 5000, "part_compare": 8000, "wire_roundtrip": 3, "multipart_sequence": 30}, "thorough": {"parse_back": 10**5, "part_compare": 10**5, "wire_roundtrip": 20, "multipart_sequence": 30}},
 )
 
 reg(
     "C18",
-    RULE="pairs of request contexts for one PoolManager that differ in exactly one keyword (or in none / only host case and explicit default port); the keyword universe is computed from inspect.signature of HTTP(S)ConnectionPool and HTTP(S)Connection constructors + PoolKey._fields + SSL_KEYWORDS; every keyword gets 2-13 pairwise-distinct typed values, all value pairs are compared, via pool_kwargs and via constructor defaults, for http and https; a case is (keyword, scheme, placement, value index); distinct = distinct such tuples; all are non-trivial",
+    RULE="pairs of request contexts for one PoolManager that differ in exactly one keyword (or in none / only host case and explicit default port); the keyword universe is computed from inspect.signature of HTTP(S)ConnectionPool and HTTP(S)Connection constructors + PoolKey._fields + SSL_KEYWORDS; every keyword gets 2-13 pairwise-distinct typed values, all value pairs are compared, via pool_kwargs and via constructor defaults, for http and https; a case is (keyword, scheme, placement, value index); distinct = distinct such tuples; all are non-trivial; default -> override -> default and override-first sequences on one ProxyManager for every public keyword",
     ASSUMPTIONS=COMMON_ASSUMPTIONS + [
         "values come from a typed table; a keyword missing from the table gets two sentinel strings and is listed in the evidence",
         "'equal settings' means equal by the value type's own equality (dicts/lists by value; SSLContext, Retry, Timeout objects by identity)",
@@ -110,7 +110,7 @@ reg(
     LEVEL_TEXT="Runtime monitoring of pool identity: for every keyword the constructors accept (derived from their signatures at run time) and every pair of table values, the PoolManager's returned pool objects are observed for distinctness / sameness, the manager's defaults are snapshotted before and after, and a sample of keywords is driven end to end over the in-memory network to observe that a differing setting dials a new socket.",
     LEVEL_NOTE="Complete over the signature-derived keyword set and the value table (finite, enumerated); trusts inspect.signature and the value table's typing.",
     TECHNIQUE="signature-derived differential monitoring of pool identity + dial-count monitor on the in-memory network",
-    REQUIRED_MONITORS={"quick": {"distinct_for_different": 300, "same_for_equal": 100, "defaults_unchanged": 50, "e2e_dials": 10}, "thorough": {"distinct_for_different": 300, "same_for_equal": 100, "defaults_unchanged": 50, "e2e_dials": 10}},
+    REQUIRED_MONITORS={"quick": {"distinct_for_different": 300, "same_for_equal": 100, "defaults_unchanged": 50, "e2e_dials": 10, "proxy_manager_sequence": 40}, "thorough": {"distinct_for_different": 300, "same_for_equal": 100, "defaults_unchanged": 50, "e2e_dials": 10, "proxy_manager_sequence": 40}},
 )
 
 reg(
@@ -148,7 +148,7 @@ reg(
 reg(
     "C13",
     LEVEL="fault_enumeration",
-    RULE="(response spec, damage, read pattern) triples: C12's responses damaged by (a) truncation at every byte of the body section for small bodies (sampled for large) followed by EOF, (b) replacement of every digit of chunk-size lines by a non-hex character or removal of the size, (c) single-byte corruption of the compressed stream inside complete framing, (d) an incomplete content stream inside complete framing; read with read(), read(n) loops, read1(n) loops, read1() loops, readinto, stream(a), read_chunked(a), iteration and preload through a real pool, followed by a second request on the same pool; a case is the triple; all non-trivial; distinct = distinct triples",
+    RULE="(response spec, damage, read pattern) triples: C12's responses damaged by (a) truncation at every byte of the body section for small bodies (sampled for large) followed by EOF, (b) replacement of every digit of chunk-size lines by a non-hex character or removal of the size, (c) single-byte corruption of the compressed stream inside complete framing, (d) an incomplete content stream inside complete framing; read with read(), read(n) loops, read1(n) loops, read1() loops, readinto, stream(a), read_chunked(a), iteration and preload through a real pool, followed by a second request on the same pool; a case is the triple; all non-trivial; distinct = distinct triples; zstd frames with several blocks and a content checksum, cut at every byte position, read with stream(1)/stream(2) among the patterns",
     ASSUMPTIONS=COMMON_ASSUMPTIONS + [
         "three-valued: cuts at or after the '0' of the terminating chunk, truncated gzip/deflate streams inside complete framing, corruption the reference decoder (zlib/zstandard used directly) does not notice, and corruption in the second gzip member (documented trailing-garbage tolerance) are 'either'; close-delimited bodies are excluded",
         "truncation is modelled as EOF (server closes); a stalled server (read timeout) is not generated here",
@@ -163,7 +163,7 @@ reg(
 
 reg(
     "C11",
-    RULE="product of body kind (None, bytes, bytearray, memoryview, array, str ASCII/non-ASCII, BytesIO, StringIO, binary file at offset 0/k/EOF, text file, read-only file-like, file-like whose tell raises, unseekable file, seekable streams that return short reads before EOF (pipe-like, RawIOBase), generator, lists with and without empty chunks, iterable of str, tuple) x size {0,1,blocksize-1,blocksize,blocksize+1,5*blocksize} (blocksize 64; default block size once) x method {GET,HEAD,DELETE,OPTIONS,POST,PUT,PATCH,custom} x chunked flag x history {ok, reset-ok, eof-ok, send-reset-ok, 503-ok, 503-503-ok, 301/307/308-ok, 307-307-ok, 303-ok, 503-307-ok} x entry {bare pool, PoolManager}; a case is that tuple; non-trivial unless body None with history ok",
+    RULE="product of body kind (None, bytes, bytearray, memoryview, array, str ASCII/non-ASCII, BytesIO, StringIO, binary file at offset 0/k/EOF, text file, read-only file-like, file-like whose tell raises, unseekable file, seekable streams that return short reads before EOF (pipe-like, RawIOBase), generator, lists with and without empty chunks, iterable of str, tuple) x size {0,1,blocksize-1,blocksize,blocksize+1,5*blocksize} (blocksize 64; default block size once) x method {GET,HEAD,DELETE,OPTIONS,POST,PUT,PATCH,custom} x chunked flag x history {ok, reset-ok, eof-ok, send-reset-ok, 503-ok, 503-503-ok, 301/307/308-ok, 307-307-ok, 303-ok, 503-307-ok} x entry {bare pool, PoolManager}; a case is that tuple; non-trivial unless body None with history ok; bytes-like bodies whose buffer has multi-byte items (array('H'), memoryview.cast('I'))",
     ASSUMPTIONS=COMMON_ASSUMPTIONS + [
         "retries use Retry(total=6, status_forcelist=[503], allowed_methods=None) so that every method is re-sent and fidelity can be observed",
         "an empty bytes/str body counts as a body (exactly one framing header), only body=None is 'body-less'",
@@ -195,7 +195,7 @@ reg(
 
 reg(
     "C05",
-    RULE="(redirect graph, policy, placement, client, method): graphs over origins a.test:80, b.test:8080, https c.test:443 and a.test:8081 with chains/loops of 1-6 hops, codes {301,302,303,307,308}, Location forms {absolute, explicit default port, upper-case host, path-absolute, relative, relative with dot segments, scheme-relative, with fragment, with query, missing}; policy values {None, False, 0, 1, 2, Retry(redirect=k), Retry(total=k), both, raise_on_redirect False} placed at request level, second level (bare pool constructor / PoolManager / ProxyManager constructor), both, or redirect=False; GET and POST with body; systematic (policy x placement x client x length x code, form x code x client) plus random graphs; a case is that tuple; all non-trivial",
+    RULE="(redirect graph, policy, placement, client, method): graphs over origins a.test:80, b.test:8080, https c.test:443 and a.test:8081 with chains/loops of 1-6 hops, codes {301,302,303,307,308}, Location forms {absolute, explicit default port, upper-case host, path-absolute, relative, relative with dot segments, scheme-relative, with fragment, with query, missing}; policy values {None, False, 0, 1, 2, Retry(redirect=k), Retry(total=k), both, raise_on_redirect False} placed at request level, second level (bare pool constructor / PoolManager / ProxyManager constructor), both, or redirect=False; GET and POST with body; systematic (policy x placement x client x length x code, form x code x client) plus random graphs; a case is that tuple; all non-trivial; the same client used beforehand with another per-request policy (0, False, 1, True, Retry objects, unset)",
     ASSUMPTIONS=COMMON_ASSUMPTIONS + [
         "one-sided: following fewer redirects than the policy allows is counted, not a violation",
         "effective policy: request-level value if not None, else the pool / manager constructor value, else Retry(3); ints mean total=n with raise_on_redirect, False means budget 0 and the 3xx is returned",
@@ -206,12 +206,12 @@ reg(
     LEVEL_TEXT="Runtime monitoring of the ordered request log of an in-memory multi-origin network: each request urllib3 makes while following a redirect graph is compared with a reference walk (resolved target, method, body, content headers) and the number of follow-ups with the budget of the policy in effect; the way exhaustion surfaces is checked against raise_on_redirect.",
     LEVEL_NOTE="Trusts the reference resolver/walker (about 80 lines) and the policy resolver; origins are distinguished by dial address and fake TLS flag.",
     TECHNIQUE="history monitoring: request log vs reference walk of the redirect graph + redirect-budget monitor",
-    REQUIRED_MONITORS={"quick": {"case": 5000, "budget": 5000, "request_sequence": 5000, "ending": 4000}, "thorough": {"case": 10**5, "budget": 10**5}},
+    REQUIRED_MONITORS={"quick": {"case": 5000, "budget": 5000, "request_sequence": 5000, "ending": 4000, "warmup_request": 100}, "thorough": {"case": 10**5, "budget": 10**5, "warmup_request": 100}},
 )
 
 reg(
     "C06",
-    RULE="(redirect chain, header set, container, placement, strip set, client): chain shapes A>B, A>B>A, A>B>relative, A>A:80>B, upper-case / explicit-default-port same-origin hops, port-only and scheme-only origin changes, scheme-relative and relative Locations, all 3xx codes; sensitive headers in 9 casings, custom header names; containers dict / HTTPHeaderDict (incl. repeated Cookie fields) supplied per request or as manager default; default and custom remove_headers_on_redirect given per request or on the manager constructor; PoolManager, ProxyManager (forwarding + tunnel, with proxy_headers) and a bare pool; optionally a failing first attempt; a case is that tuple; all non-trivial",
+    RULE="(redirect chain, header set, container, placement, strip set, client): chain shapes A>B, A>B>A, A>B>relative, A>A:80>B, upper-case / explicit-default-port same-origin hops, port-only and scheme-only origin changes, scheme-relative and relative Locations, all 3xx codes; sensitive headers in 9 casings, custom header names; containers dict / HTTPHeaderDict (incl. repeated Cookie fields) supplied per request or as manager default; default and custom remove_headers_on_redirect given per request or on the manager constructor; PoolManager, ProxyManager (forwarding + tunnel, with proxy_headers) and a bare pool; optionally a failing first attempt; a case is that tuple; all non-trivial; requests whose headers are all in the strip set sent through managers that have sensitive default headers of their own",
     ASSUMPTIONS=COMMON_ASSUMPTIONS + [
         "origin equality: scheme, lower-cased host, port with defaults filled in (explicit default port and letter case are the same origin)",
         "dropping a sensitive header on a same-origin hop is counted, not a violation (the statement forbids forwarding, it does not demand forwarding)",
@@ -222,13 +222,13 @@ reg(
     LEVEL_TEXT="Runtime monitoring of the per-origin request log: for each request of each redirect chain, headers named by the strip set in effect must be absent from the first cross-origin hop on, all other caller headers present and unaltered, proxy headers never inside a tunnel; a bare pool must raise HostChangedError with nothing dialled or sent elsewhere.",
     LEVEL_NOTE="Trusts the independent origin-equality predicate and C05's reference walk for 'which hop is cross-origin'.",
     TECHNIQUE="history monitoring: per-origin request log vs origin-equality + strip-set oracle",
-    REQUIRED_MONITORS={"quick": {"case": 5000, "request_headers": 8000, "pool_host_guard": 100}, "thorough": {"case": 10**5, "request_headers": 10**5}},
+    REQUIRED_MONITORS={"quick": {"case": 5000, "request_headers": 8000, "pool_host_guard": 100, "sensitive_only_over_defaults": 100}, "thorough": {"case": 10**5, "request_headers": 10**5, "sensitive_only_over_defaults": 100}},
 )
 
 reg(
     "C01",
     LEVEL="fault_enumeration",
-    RULE="histories of 1-3 requests on one pool, each request a script of 1-3 per-attempt outcomes drawn from {connect refused / timeout / other OSError / KeyboardInterrupt / bare BaseException; send EPIPE / ECONNRESET / EIO / interrupt at the 1st or 2nd send; receive timeout / reset / EOF / garbage / TLS error / KeyboardInterrupt / SystemExit / BaseException before the status line; interrupt or OSError from the pool's liveness probe at checkout; responses 200 keep-alive / close / chunked / close-delimited / short body / fault or interrupt in the middle of the body; 204; 302/303/307 to the same host; 503 force-listed keep-alive or close; 429+Retry-After; 500}, each response disposed by one of 11 ways (read, read part then release, release unread, drain, close, part then close, stream, read1 loop, context manager, .data, drain+release) immediately or late (overlapping leases); configurations pool kind {direct, forwarding proxy, CONNECT tunnel with fake TLS} x maxsize {1,2,3} x block x 6 retry policies x preload_content x release_conn; single-outcome product enumerated (strided in quick) plus random histories; a case is (configuration, history); all non-trivial",
+    RULE="histories of 1-3 requests on one pool, each request a script of 1-3 per-attempt outcomes drawn from {connect refused / timeout / other OSError / KeyboardInterrupt / bare BaseException; send EPIPE / ECONNRESET / EIO / interrupt at the 1st or 2nd send; receive timeout / reset / EOF / garbage / TLS error / KeyboardInterrupt / SystemExit / BaseException before the status line; interrupt or OSError from the pool's liveness probe at checkout; responses 200 keep-alive / close / chunked / close-delimited / short body / fault or interrupt in the middle of the body; 204; 302/303/307 to the same host; 503 force-listed keep-alive or close; 429+Retry-After; 500}, each response disposed by one of 11 ways (read, read part then release, release unread, drain, close, part then close, stream, read1 loop, context manager, .data, drain+release) immediately or late (overlapping leases); configurations pool kind {direct, forwarding proxy, CONNECT tunnel with fake TLS} x maxsize {1,2,3} x block x 6 retry policies x preload_content x release_conn; single-outcome product enumerated (strided in quick) plus random histories; a case is (configuration, history); all non-trivial; mid-body faults also on Connection: close / close-delimited / chunked responses; body-less 302/307/503 answers; connect-step outcomes additionally through urllib3's own create_connection with 1-3 addresses per name (scripted getaddrinfo / socket constructor)",
     ASSUMPTIONS=COMMON_ASSUMPTIONS + [
         "'closed' means explicitly closed at the quiescent point, without waiting for garbage collection",
         "after a read raised, the harness calls release_conn() on that response (as the statement's 'read, released or closed' requires some disposal)",
@@ -239,12 +239,12 @@ reg(
     LEVEL_TEXT="Fault enumeration with runtime monitors at quiescent points: after every request and every disposal a sequential slot model (leased + queued = maxsize; at quiescence queued = maxsize) is compared with the pool's queue, the queue is checked for duplicate connection objects, every socket ever created must be idle in the pool, leased, or explicitly closed, dial events on block=True pools must never exceed maxsize open sockets, every exception reaching the caller must be a urllib3 HTTPError, and an injected BaseException must surface as the identical object; a lease probe checks the public behaviour (N leases, N+1 raises EmptyPoolError).",
     LEVEL_NOTE="Trusts the in-memory network's socket life-cycle bookkeeping and the slot model; reads pool.pool.queue (the LIFO queue's list) at quiescent points only.",
     TECHNIQUE="fault injection at every I/O step + invariant monitors at quiescent points (slot conservation, socket life-cycle, exception-class and interrupt-identity oracles)",
-    REQUIRED_MONITORS={"quick": {"quiescent_point": 20000, "request": 10000, "disposal": 5000, "open_socket_bound": 5000, "interrupt_identity": 200, "lease_probe": 300}, "thorough": {"quiescent_point": 10**5, "request": 10**5}},
+    REQUIRED_MONITORS={"quick": {"quiescent_point": 20000, "request": 10000, "disposal": 5000, "open_socket_bound": 5000, "interrupt_identity": 200, "lease_probe": 300, "deep_dial_case": 200, "starvation": 2000}, "thorough": {"quiescent_point": 10**5, "request": 10**5, "deep_dial_case": 200, "starvation": 2000}},
 )
 
 reg(
     "C03",
-    RULE="sequences of 2-4 requests (GET/HEAD/POST) over one pool of size 1-2 with retries False or 2; per arrival the server picks one of 23 behaviours (Content-Length / chunked / close-delimited, keep-alive or Connection: close, segmented delivery, a read timeout or I/O error in the middle of a segmented body whose rest is still in flight, short body, bytes beyond Content-Length, a body whose tail looks like a complete response, 100-continue, 204/304, unsolicited garbage / a complete bogus response / EOF sent with the response or while the connection is idle before the next checkout); per response the caller picks one of 9 behaviours (read all, read part then release, release unread, drain, close, read part then close, stream, stream partly then abandon, ignore); every body embeds the request id taken from the path; length-2 histories enumerated (strided in quick), longer ones random; a case is the whole history; all non-trivial",
+    RULE="sequences of 2-4 requests (GET/HEAD/POST) over one pool of size 1-2 with retries False or 2; per arrival the server picks one of 23 behaviours (Content-Length / chunked / close-delimited, keep-alive or Connection: close, segmented delivery, a read timeout or I/O error in the middle of a segmented body whose rest is still in flight, short body, bytes beyond Content-Length, a body whose tail looks like a complete response, 100-continue, 204/304, unsolicited garbage / a complete bogus response / EOF sent with the response or while the connection is idle before the next checkout); per response the caller picks one of 9 behaviours (read all, read part then release, release unread, drain, close, read part then close, stream, stream partly then abandon, ignore); every body embeds the request id taken from the path; length-2 histories enumerated (strided in quick), longer ones random; a case is the whole history; all non-trivial; caller behaviour 'read-late' (two leases overlap, then two connections idle) and a family in which both idle connections of a pool of 2-3 receive unsolicited bytes / EOF before the next requests",
     ASSUMPTIONS=COMMON_ASSUMPTIONS + [
         "unsolicited bytes are sent either together with the response or at an idle point before the next checkout; bytes arriving after checkout are outside the statement",
         "a request arriving on a connection with undelivered bytes of the previous exchange is allowed as long as no response is handed to the caller for it (urllib3 may fail with ProtocolError and retry)",
@@ -254,7 +254,7 @@ reg(
     LEVEL_TEXT="Runtime monitoring with tagged responses: every delivered byte sequence must be a prefix of the body generated for that request id (foreign, shifted or stray bytes are visible), the delivered status must be one the server sent for that id, and the server-side monitor flags any response obtained from a connection that still had undelivered bytes of an earlier exchange when the request arrived.",
     LEVEL_NOTE="Trusts the in-memory network's delivery bookkeeping (segments / kernel buffer) for the 'unclean connection' monitor.",
     TECHNIQUE="history monitoring with unique ids embedded in every response (prefix oracle) + server-side cleanliness monitor at request arrival",
-    REQUIRED_MONITORS={"quick": {"history": 5000, "body_prefix": 10000, "clean_connection": 5000}, "thorough": {"history": 10**5, "body_prefix": 10**5}},
+    REQUIRED_MONITORS={"quick": {"history": 5000, "body_prefix": 10000, "clean_connection": 5000, "two_idle_connections": 60}, "thorough": {"history": 10**5, "body_prefix": 10**5, "two_idle_connections": 60}},
 )
 
 reg(
@@ -276,7 +276,7 @@ reg(
 
 reg(
     "C15",
-    RULE="http/https URLs that PoolManager accepts: 17 host forms (names in several casings, trailing dot, IPv4, bracketed IPv6 with and without zone, IDN as U-label / upper-case / A-label) x 8 port forms (none, explicit default, odd, 0, 65535, leading zeros) x http/https x direct / through a proxy (forwarded absolute-form or CONNECT tunnel); userinfo x path x query x fragment forms (empty path with query, dot segments, spaces, non-ASCII, percent forms); case / explicit-default-port variants of one URL; random assemblies; a case is (URL, route); all non-trivial",
+    RULE="http/https URLs that PoolManager accepts: 17 host forms (names in several casings, trailing dot, IPv4, bracketed IPv6 with and without zone, IDN as U-label / upper-case / A-label) x 8 port forms (none, explicit default, odd, 0, 65535, leading zeros) x http/https x direct / through a proxy (forwarded absolute-form or CONNECT tunnel); userinfo x path x query x fragment forms (empty path with query, dot segments, spaces, non-ASCII, percent forms); case / explicit-default-port variants of one URL; random assemblies; a case is (URL, route); all non-trivial; redirects followed by the manager from 5 first URLs to 10 second URLs (other host / port / scheme), direct and through a proxy, with and without caller headers",
     ASSUMPTIONS=COMMON_ASSUMPTIONS + [
         "the TLS server name is observed at the innermost wrap call (urllib3.connection.ssl_wrap_socket replaced by a recorder, everything above it is the real code); no real handshake is made here (C07/C09 do that)",
         "oracle decisions fixed by the wording: dial host keeps a trailing dot and the zone id but never brackets; Host is the host without zone, bracketed for IPv6, trailing dot either, port appended iff not the scheme default; TLS server name has no brackets, zone or trailing dot",
@@ -287,12 +287,12 @@ reg(
     LEVEL_TEXT="Runtime monitoring of four independently derived observables per URL on the in-memory network (dial address, Host header parsed by the strict request parser, server name handed to the TLS layer, request target) against an independent reading of the URL, plus pool identity and byte-identity for case/default-port variants.",
     LEVEL_NOTE="Trusts the reference URL reader shared with C14 and the idna package for IDN hosts.",
     TECHNIQUE="relational runtime monitoring: consistency of dial address, Host header, TLS server name and request target with an independent URL reading",
-    REQUIRED_MONITORS={"quick": {"url": 1500, "dial": 1000, "host_header": 1000, "request_target": 1000, "tls_server_name": 40, "same_pool": 5, "manager_sequence": 6}, "thorough": {"url": 20000, "tls_server_name": 1000}},
+    REQUIRED_MONITORS={"quick": {"url": 1500, "dial": 1000, "host_header": 1000, "request_target": 1000, "tls_server_name": 40, "same_pool": 5, "manager_sequence": 6, "redirect_follow_up": 100}, "thorough": {"url": 20000, "tls_server_name": 1000, "redirect_follow_up": 100}},
 )
 
 reg(
     "C02",
-    RULE="(configuration, schedule): configurations = 2-3 worker threads x 1-2 requests each on one pool, maxsize {1,2}, block {True,False}, optional closer thread calling close(), optional failing first attempt (connection reset or 503 retried), preloaded or streamed+released responses; schedules = every interleaving with at most 1 (quick) / 2 (thorough) preemptions at line granularity inside _get_conn/_put_conn/close/_close_pool_connections/release_conn/urlopen/_new_conn (breadth-first, capped per configuration) plus seeded random-walk and PCT-style priority schedules over all instrumented lines of connectionpool.py, response.py and connection.py; plus real-scheduler stress runs (6-12 threads x 40-150 requests, stdlib queue.LifoQueue with monitor hooks under its own mutex, switch interval 1e-6, seeded yield injection); a case is (configuration, decision list or seed); non-trivial = at least one preemption; distinct interleavings are counted by the hash of the switch sequence",
+    RULE="(configuration, schedule): configurations = 2-3 worker threads x 1-2 requests each on one pool, maxsize {1,2}, block {True,False}, optional closer thread calling close(), optional failing first attempt (connection reset or 503 retried), preloaded or streamed+released responses; schedules = every interleaving with at most 1 (quick) / 2 (thorough) preemptions at line granularity inside _get_conn/_put_conn/close/_close_pool_connections/release_conn/urlopen/_new_conn (breadth-first, capped per configuration) plus seeded random-walk and PCT-style priority schedules over all instrumented lines of connectionpool.py, response.py and connection.py; plus real-scheduler stress runs (6-12 threads x 40-150 requests, stdlib queue.LifoQueue with monitor hooks under its own mutex, switch interval 1e-6, seeded yield injection); a case is (configuration, decision list or seed); non-trivial = at least one preemption; distinct interleavings are counted by the hash of the switch sequence; plus a directed family for close(): one worker preempted at its lease boundary, then close() to completion at every later decision point; switch points also inside the queue's put/get (after the caller loaded the queue object); body-less 503 / 302 first answers on block=True pools",
     ASSUMPTIONS=COMMON_ASSUMPTIONS + [
         "controlled mode: exactly one worker runs at a time; preemption points are sys.monitoring LINE events, so switches between two bytecodes of one statement are not explored",
         "the pool's queue is replaced through the documented QueueCls extension point by a cooperative LIFO queue with the semantics of queue.LifoQueue (maxsize, Full/Empty, blocking get with timeout); preemption inside the C code of queue/threading is not explored",
@@ -304,12 +304,12 @@ reg(
     LEVEL_TEXT="Schedule exploration with runtime monitors: the real pool code runs on real threads under a controlled scheduler (one thread at a time, baton passed at sys.monitoring LINE events); per executed interleaving the monitors check socket ownership (no connection used by a thread that does not hold it, none leased or queued twice), the open-socket bound for block=True, that each response carries its own request id, that every thread terminates (no enabled thread = deadlock / lost wake-up), the exception whitelist under a racing close() (normal result or ClosedPoolError only), and that no socket survives dropping the pool object.",
     LEVEL_NOTE="Trusts the scheduler (vf/sched.py), the cooperative queue's equivalence to queue.LifoQueue and the in-memory network; explores up to the stated preemption bound plus random schedules, not all interleavings.",
     TECHNIQUE="controlled-scheduler interleaving exploration (preemption-bounded + randomized/PCT) with ownership, bound, termination and exception-whitelist monitors",
-    REQUIRED_MONITORS={"quick": {"schedule": 1500, "termination": 1500, "results": 1500, "post_mortem_sweep": 1000, "stress_run": 4}, "thorough": {"schedule": 30000, "termination": 30000}},
+    REQUIRED_MONITORS={"quick": {"schedule": 1500, "termination": 1500, "results": 1500, "post_mortem_sweep": 1000, "stress_run": 4, "close_directed_schedule": 500}, "thorough": {"schedule": 30000, "termination": 30000, "close_directed_schedule": 500}},
 )
 
 reg(
     "C17",
-    RULE="(i) every operation sequence up to length 5 (quick, 3 keys) / 6 (thorough, 4 keys) over get/set/delete per key + clear + len, maxsize in {0,1,2,3}, on the real RecentlyUsedContainer vs a sequential LRU model with dispose log; (ii) 7 concurrent container scenarios (2-3 threads x 1-3 operations) x maxsize {0,1,2} under the controlled scheduler: all schedules with <= 2 preemptions at line granularity inside the container methods (capped) + random schedules, histories checked for linearizability, exactly-once disposal, conservation, dispose-never-under-lock; (iii) 6 PoolManager scenarios x num_pools {1,2}: threads doing connection_from_url over 3 origins, full requests, streamed responses held across evictions, clear() and len(), same exploration; a case is the sequence or (scenario, schedule); non-trivial = length >= 3 / at least one preemption",
+    RULE="(i) every operation sequence up to length 5 (quick, 3 keys) / 6 (thorough, 4 keys) over get/set/delete per key + clear + len, maxsize in {0,1,2,3}, on the real RecentlyUsedContainer vs a sequential LRU model with dispose log; (ii) 7 concurrent container scenarios (2-3 threads x 1-3 operations) x maxsize {0,1,2} under the controlled scheduler: all schedules with <= 2 preemptions at line granularity inside the container methods (capped) + random schedules, histories checked for linearizability, exactly-once disposal, conservation, dispose-never-under-lock; (iii) 6 PoolManager scenarios x num_pools {1,2}: threads doing connection_from_url over 3 origins, full requests, streamed responses held across evictions, clear() and len(), same exploration; a case is the sequence or (scenario, schedule); non-trivial = length >= 3 / at least one preemption; manager scenarios include requests whose redirect the manager follows and direct pool.urlopen calls on cached pools",
     ASSUMPTIONS=COMMON_ASSUMPTIONS + [
         "the container's lock is replaced through its public 'lock' instance attribute by a cooperative re-entrant lock (identical semantics), the pools' queue through QueueCls; preemption points are LINE events",
         "same-key-same-pool under races is judged as: two different pool objects for one origin are only acceptable if the first one was evicted or cleared (recorded at the container's dispose callback) before the second was handed out",
